@@ -386,7 +386,7 @@ class Gen:
                 return rnd.choice(self.pool_f)  # sharing of sub-DAGs
             return self.const()
         k = rnd.choice(["add", "subtract", "multiply", "divide", "negative", "absolute", "minimum", "maximum", "sqrt", "square", "sign", "select", "select",
-                        "updown", "item", "realimag", "template"])
+                        "updown", "item", "realimag", "template", "template"])
         if k in ("negative", "absolute", "sqrt", "square", "sign"):
             e = getattr(ctx, k)(self.f(depth - 1))
         elif k == "select":
@@ -506,6 +506,13 @@ class Gen:
             k = rnd.choice(["lt", "le", "gt", "ge", "eq", "ne"])
         else:
             k = rnd.choice(["lt", "le", "gt", "ge", "eq", "ne", "lt", "ge", "logical_and", "logical_or", "logical_not", "logical_xor", "bconst", "signedcmp", "signedcmp", "template", "pool"])
+        if self.csym is not None and rnd.random() < 0.12:
+            # equality comparisons of complex values (the only comparisons defined for them)
+            w = self.csym
+            other = rnd.choice([lambda: ctx.constant(0, w), lambda: ctx.conjugate(w), lambda: w * w, lambda: ctx.complex(self.f(0), self.f(0)), lambda: ctx.constant(1, w), lambda: -w])()
+            e = (w == other) if rnd.random() < 0.5 else (w != other)
+            self.pool_b.append(e)
+            return e
         if k == "bconst":
             return ctx.constant(rnd.random() < 0.5)
         if k == "pool":
